@@ -438,11 +438,102 @@ def angular_integration(chk):
         chk.canary("integrate_angular_coordinates/one-function", hy)
 
 
+def molgrid_interpolate(chk):
+    """MolGrid.interpolate on a two-atom molecular grid (representation as MolGrid.__init__ leaves it, C07): atom a's interpolant is built by
+    molgrid[a].interpolate on the segment of f x aim-weights delimited by the index table, and the returned callable is the sum of the atomic
+    interpolants evaluated at the same points with the same derivative options; f is not written; store=False grids are refused."""
+    eng = chk.eng
+    fq = "grid.molgrid.MolGrid.interpolate"
+    N0, N1, t0 = z3.Ints("N0 N1 t0")
+    AIMW = z3.Function("aim_weight", IS, RS)
+    AINT = z3.Function("atomic_interpolant", IS, IS, RS)        # (atom, evaluation point): contract of AtomGrid.interpolate(...)(points, options)
+    GPT = z3.Function("mol_grid_point", IS, IS, RS)
+    rep = {"what": "molgrid-interpolate"}
+    OPTS = [dict(), dict(deriv=1), dict(deriv=1, deriv_spherical=True), dict(deriv=2, only_radial_derivs=True)]
+    for vi, opts in enumerate(OPTS):
+        rec = {"build": [], "eval": []}
+
+        def thunk(eng_, opts=opts, rec=rec):
+            for v_ in rec.values():
+                del v_[:]
+            eng_.assume(z3.And(N0 >= 1, N1 >= 1, NE >= 1, j0 >= 0, j0 < NE, t0 >= 0))
+            total = N0 + N1
+            ats = []
+            for a in range(2):
+                o = I.Obj(eng_.get_class(MOD, "AtomGrid"))
+                o.fields["_atom_index"] = a
+                ats.append(o)
+            mg = I.Obj(eng_.get_class("grid.molgrid", "MolGrid"))
+            offs = [z3.IntVal(0), N0, total]
+            mg.fields.update(_indices=I.Arr((3,), lambda j: M.select_const(j, [lambda v=v: v for v in offs]), "int"),
+                             _atcoords=I.Arr((2, 3), lambda a, c: z3.Function("centre", IS, IS, RS)(T.zi(a), T.zi(c)), "real"),
+                             _aim_weights=I.Arr((total,), lambda j: AIMW(T.zi(j)), "real"), _atgrids=ats, _kdtree=None,
+                             _points=I.Arr((total, 3), lambda j, c: GPT(T.zi(j), T.zi(c)), "real"), _weights=I.Arr((total,), lambda j: z3.RealVal(1), "real"))
+            fv = I.Arr((total,), lambda j: FV(T.zi(j)), "real")
+            before = fv.fn
+
+            def interp_contract(e, f, args, kwargs):
+                a = args[0].fields.get("_atom_index")
+                rec["build"].append((a, args[1]))
+
+                def low(e2, pts, *pa, **kw):
+                    names = ("deriv", "deriv_spherical", "only_radial_derivs")
+                    given = dict(zip(names, pa))
+                    given.update(kw)
+                    rec["eval"].append((a, pts, given))
+                    return I.Arr((pts.shape[0],), lambda j, a=a: AINT(a, T.zi(j)), "real")
+                return I.Model("atomic_interpolant", low)
+            eng_.callee_contracts[f"{MOD}.AtomGrid.interpolate"] = interp_contract
+            try:
+                res = eng_.call_method(mg, "interpolate", fv)
+                ev = I.Arr((NE, 3), lambda j, c: EP(T.zi(j), T.zi(c)), "real")
+                out = eng_.call(res, [ev], dict(opts))
+                return dict(out=out, rec={k: list(v_) for k, v_ in rec.items()}, ats=ats, ev=ev, untouched=fv.fn is before)
+            finally:
+                eng_.callee_contracts.pop(f"{MOD}.AtomGrid.interpolate", None)
+        tag = "-".join(f"{k}{int(v_) if not isinstance(v_, bool) else ''}" for k, v_ in opts.items()) or "values"
+        outs = chk.explore(f"MolGrid.interpolate/{tag}", thunk, func=fq)
+        rets = [o for o in outs if o.kind == "return"]
+        chk.add(f"MolGrid.interpolate/{tag}/post/returns-on-every-path", [], z3.BoolVal(bool(rets) and len(rets) == len(outs)), func=fq,
+                meta={"replay": rep, "paths": str([(o.kind, o.exc, o.note) for o in outs])})
+        for oi, o in enumerate(rets):
+            v = o.value
+            hy = list(o.pc)
+            sfx = "" if len(rets) == 1 else f"@{oi}"
+            chk.add_from_path(f"MolGrid.interpolate/{tag}/path{oi}", o, func=fq, meta={"replay": rep})
+            r = v["rec"]
+            ok = [a for a, _ in r["build"]] == [0, 1] and sorted(a for a, _, _ in r["eval"]) == [0, 1] and all(isinstance(x[1], I.Arr) and x[1].ndim == 1 for x in r["build"])
+            chk.add(f"MolGrid.interpolate/{tag}/post/one-interpolant-per-atom-on-that-atoms-grid-each-evaluated-once{sfx}", [], z3.BoolVal(bool(ok)), func=fq, meta={"replay": rep})
+            if not ok:
+                continue
+            s0, s1 = r["build"][0][1], r["build"][1][1]
+            chk.add(f"MolGrid.interpolate/{tag}/post/each-atom-gets-its-segment-of-f-times-the-aim-weights{sfx}", hy,
+                    z3.And(T.zi(s0.shape[0]) == N0, T.zi(s1.shape[0]) == N1, z3.Implies(t0 < N0, T.zr(s0.fn(t0)) == FV(t0) * AIMW(t0)),
+                           z3.Implies(t0 < N1, T.zr(s1.fn(t0)) == FV(N0 + t0) * AIMW(N0 + t0))), func=fq, meta={"replay": rep})
+            want = {"deriv": 0, "deriv_spherical": False, "only_radial_derivs": False}
+            want.update(opts)
+            same_opts = all({**{"deriv": 0, "deriv_spherical": False, "only_radial_derivs": False}, **g} == want for _, _, g in r["eval"])
+            chk.add(f"MolGrid.interpolate/{tag}/post/same-points-and-options-for-every-atom{sfx}", hy,
+                    z3.And(z3.BoolVal(bool(same_opts)), *[framework.same_array(p_, v["ev"], f"qm{k}") for k, (_, p_, _) in enumerate(r["eval"])]), func=fq, meta={"replay": rep})
+            chk.add(f"MolGrid.interpolate/{tag}/post/result-is-the-sum-of-the-atomic-interpolants{sfx}", hy,
+                    z3.And(T.zi(v["out"].shape[0]) == NE, T.zr(v["out"].fn(j0)) == AINT(0, j0) + AINT(1, j0)), func=fq, meta={"replay": rep})
+            chk.add(f"MolGrid.interpolate/{tag}/frame/callers-values-are-not-written{sfx}", [], z3.BoolVal(bool(v["untouched"])), kind="frame", func=fq, meta={"replay": rep})
+
+    def t_nostore(eng_):
+        mg = I.Obj(eng_.get_class("grid.molgrid", "MolGrid"))
+        mg.fields.update(_atgrids=None)
+        return eng_.call_method(mg, "interpolate", I.Arr((NP,), lambda j: FV(T.zi(j)), "real"))
+    outs = chk.explore("MolGrid.interpolate/no-store", t_nostore, func=fq)
+    chk.add("MolGrid.interpolate/raises/molecular-grid-without-stored-atomic-grids", [],
+            z3.BoolVal(bool(outs) and all(o.kind == "raise" and o.exc == "ValueError" for o in outs)), func=fq, meta={"replay": rep})
+
+
 def build(chk):
     interpolant(chk)
     jacobian(chk)
     band_limit_cut(chk)
     angular_integration(chk)
+    molgrid_interpolate(chk)
 
 
 def main(tier="quick", seed=0, bounded=True, proof=True):
